@@ -34,7 +34,7 @@ class AbstractReader(object):
         if self.lowcaseMatching:
             filenames.append(mibname.lower())
 
-        if self.fuzzyMatching:
+        if self.fuzzyMatching and filenames:
             part = filenames[-1].find('-mib')
             if part != -1:
                 filenames.extend(
